@@ -48,6 +48,8 @@ type vfCCPeer struct {
 	srv    *grpc.Server
 	killed bool
 	name   string
+	// closedLocally: the proxy closed the session of this peer itself (closeLocal)
+	closedLocally bool
 	// incoming yamux streams, accepted once per session and handed to the current gRPC server incarnation
 	streams    chan net.Conn
 	acceptDone chan struct{}
@@ -167,6 +169,7 @@ type vfCCExec struct {
 	failOpen map[string]int
 	degraded map[string]bool
 	faults   int
+	idled    bool
 }
 
 func (e *vfCCExec) violate(sig, detail string) {
@@ -293,6 +296,16 @@ func (e *vfCCExec) consistency(when string) {
 		}
 	}
 	sort.Strings(keys)
+	// every connection the provider was given and that neither side has ended is a registered session
+	wantLive := 0
+	for _, p := range e.peers {
+		if !p.killed && !p.closedLocally {
+			wantLive++
+		}
+	}
+	if len(ids) != wantLive {
+		e.violate("consistency/registered-sessions-differ-from-live-connections", fmt.Sprintf("%s: %d connections were established and not ended by either side, %d sessions are registered (%v)", when, wantLive, len(ids), ids))
+	}
 	if fmt.Sprint(keys) != fmt.Sprint(ids) {
 		e.violate("consistency/dialable-endpoints-differ-from-registered-sessions", fmt.Sprintf("%s: registered sessions %v, client connection can dial %v", when, ids, keys))
 	}
@@ -345,6 +358,9 @@ func (e *vfCCExec) enabled() []string {
 	if e.rpcs < 3 {
 		out = append(out, "rpc")
 	}
+	if !e.idled {
+		out = append(out, "idle")
+	}
 	if e.faults < e.sc.MaxFaults {
 		for _, id := range e.liveIDs() {
 			if !e.degraded[id] {
@@ -375,6 +391,9 @@ func (e *vfCCExec) apply(a string) error {
 			return fmt.Errorf("action %s not enabled", a)
 		}
 		e.logf("session %s closed locally", f[1])
+		if pi, ok := e.idToPeer[f[1]]; ok {
+			e.peers[pi].closedLocally = true
+		}
 		s.Close()
 	case "killPeer":
 		var i int
@@ -387,6 +406,12 @@ func (e *vfCCExec) apply(a string) error {
 		_ = p.conn.Close()
 	case "rpc":
 		e.rpc()
+	case "idle":
+		// a quiet period longer than gRPC's idle timeout (30 min): the channel goes idle and rebuilds its resolver at
+		// the next call
+		e.idled = true
+		e.logf("31 minutes without calls")
+		time.Sleep(31 * time.Minute)
 	case "degrade":
 		e.faults++
 		e.degraded[f[1]] = true
@@ -427,7 +452,7 @@ func (e *vfCCExec) key() string {
 	}
 	sort.Strings(deg)
 	sort.Strings(fo)
-	fmt.Fprintf(&sb, "live=%v waiting=%v rpcs=%d faults=%d degraded=%v failOpen=%v|", e.liveIDs(), e.waiting(), e.rpcs, e.faults, deg, fo)
+	fmt.Fprintf(&sb, "live=%v waiting=%v rpcs=%d faults=%d degraded=%v failOpen=%v idled=%v|", e.liveIDs(), e.waiting(), e.rpcs, e.faults, deg, fo, e.idled)
 	for i, p := range e.peers {
 		fmt.Fprintf(&sb, "%d:%v,", i, p.killed)
 	}
@@ -540,6 +565,10 @@ func TestVerifC11(t *testing.T) {
 		seen := map[[20]byte]bool{}
 		mk := func(p []string) string { b, _ := json.Marshal(vfCCJob{Sc: sc, Path: p}); return string(b) }
 		handle := func(path []string, r vrt.JobResult) *node {
+			if r.Crashed && vrt.CrashInCodeUnderTest(r.Stderr) {
+				res.Violate("session-list/process-crash", fmt.Sprintf("pool size %d, actions %v: the process died in the code under test\n%.1500s", sc.Size, path, r.Stderr), vfCCJob{Sc: sc, Path: path})
+				return nil
+			}
 			if r.Crashed || r.TimedOut {
 				harnessErrs = append(harnessErrs, fmt.Sprintf("worker crashed=%v timedOut=%v on %v: %.300s", r.Crashed, r.TimedOut, path, r.Stderr))
 				return nil
@@ -607,7 +636,7 @@ func TestVerifC11(t *testing.T) {
 	res.Set("distinct_outcomes", int64(len(outcomes)))
 	res.Set("exhaustive", exhaustive && len(harnessErrs) == 0)
 	res.Set("harness_errors", harnessErrs)
-	res.Set("alphabet", "add (new yamux session with a gRPC echo server behind it), closeLocal(id), killPeer(i), rpc (DescribeCluster, up to 3 tries of 2 s each 2 s apart), and up to max_faults of: degrade(id) (the session's health state reads Error while it stays up), failOpen(id) (its next Open fails once), bounce(i) (the peer's gRPC server restarts on the same session, so the client redials); after every path a closing rpc and, if nothing is live, a new session followed by an rpc")
+	res.Set("alphabet", "add (new yamux session with a gRPC echo server behind it), closeLocal(id), killPeer(i), rpc (DescribeCluster, up to 3 tries of 2 s each 2 s apart), idle (31 minutes without calls, once), and up to max_faults of: degrade(id) (the session's health state reads Error while it stays up), failOpen(id) (its next Open fails once), bounce(i) (the peer's gRPC server restarts on the same session, so the client redials); after every path a closing rpc and, if nothing is live, a new session followed by an rpc")
 	res.Set("explanation", "every transition runs the real multiMuxManager (listener = real MultiClientConn.OnConnectionListUpdate; second family: built by the real NewGRPCMuxManager with the real establisher over an in-memory network), real yamux and a real grpc.ClientConn/Server pair in a synctest bubble; after every action the dialable endpoint set is compared with the registered sessions and CanMakeCalls; no separate model")
 	res.Sample(map[string]any{"pool_size": sc.Size, "states": states})
 	res.Assume("gRPC and yamux internals run free (in virtual time) between actions; a call is given 3 tries within 10 s of virtual time before 'fails although a session is live' is reported")
